@@ -127,13 +127,17 @@ def build(m):
         return None
 
 
-def decode_impl(b, hint=None):
-    """content bytes -> msg tuple as extracted by the real handle() of the accepting class (None: raises / nothing decoded)."""
+LIVE = {}       # one long-lived handler object per class, as a listening spa / client keeps them
+
+
+def decode_impl(b, hint=None, live=False):
+    """content bytes -> msg tuple as extracted by the real handle() of the accepting class (None: raises / nothing decoded).
+    live: decode with the long-lived handler objects (whatever earlier datagrams left in them is still there)."""
     hs = handler_classes()
     acc = []
     owner = None
     for name, mk in hs:
-        h = mk()
+        h = LIVE.setdefault(name, mk()) if live else mk()
         ok = bool(h.can_handle(bytes(b), ("1.2.3.4", 10022)))
         acc.append(ok)
         if ok and owner is None and name not in ("HHello", "HPacket"):
@@ -254,6 +258,7 @@ def run(ctx):
     ctx.prove(timeout=1800)
     rng = ctx.rng
     exprs, meta = [], []
+    stream = []
     hnames = [n for n, _ in handler_classes()]
     # ---- messages
     for m in gen_msgs(ctx, platforms):
@@ -263,6 +268,8 @@ def run(ctx):
         dec, acc = (None, [False] * 14) if b is None else decode_impl(b, m)
         if dec == "unmodelled":
             continue
+        if b is not None:
+            stream.append((m, b, dec))
         exprs.append("chk_msg %s %s %s [%s]" % (cmsg(m), "None" if b is None else "(Some %s)" % vf.zb(b), ocmsg(dec), "; ".join(vf.cbool(x) for x in acc)))
         meta.append({"msg": repr(m)[:200], "bytes": None if b is None else list(b)[:40], "decoded": repr(dec)[:200], "accepted_by": [n for n, x in zip(hnames, acc) if x]})
         ctx.case(repr(m), nontrivial=len(m) > 2 or m[0] in ("Statv", "Statp", "Rmreq", "Files"))
@@ -308,6 +315,25 @@ def run(ctx):
         meta.append({"raw": list(b)[:40], "decoded": repr(dec)[:200]})
         ctx.case(("raw", b))
         ctx.count("malformed_datagrams")
+    # ---- the same datagrams, in random order, through ONE long-lived handler object per class (a listening peer keeps its handlers): what a
+    #      datagram decodes to must not depend on the datagrams decoded before it
+    LIVE.clear()
+    # only the datagrams a listening peer really decodes with long-lived objects: the requests a spa / the simulator serves, and on the client
+    # the partial updates and RF error reports (replies to the client's own requests are decoded by the request object built for that attempt)
+    # (partial updates are left out: the threaded handler accumulates their records until the client has applied them - C05's pending list)
+    long_lived = {"Aping", "Avers", "Curch", "Sfile", "Statu", "SpackKey", "SpackSet", "Getwc", "Reqrm", "Updts", "Rferr"}
+    order = [x for x in stream if x[0][0] in long_lived]
+    rng.shuffle(order)
+    for (m, b, dec) in order[:(4000 if ctx.thorough else 900)]:
+        try:
+            dec_live, _ = decode_impl(b, m, live=True)
+        except Exception as e:  # noqa
+            dec_live = "raises %s" % type(e).__name__
+        ctx.count("decoded_by_long_lived_handlers")
+        if dec_live != dec:
+            ctx.fail("decode:history:%s" % m[0], "a %s datagram decodes to %r on a handler object that has decoded other datagrams before, to %r on a fresh one" % (m[0], dec_live, dec),
+                     {"msg": repr(m)[:200], "bytes": list(b)[:60], "fresh": repr(dec)[:200], "long_lived": repr(dec_live)[:200]})
+            break
     # ---- hello
     from geckolib.driver import protocol as P
     names = [b"My Spa", b"", b"Spa|with|bars", b"caf\xe9 \xfc", nasty(rng, 12), b"|", b"1",
